@@ -14,10 +14,11 @@ RULE = ("human-round optimiser inputs captured from drawn three-round runs (coun
         "several drawn single perturbations: one supply increased (initial stock; one month of crops / meat / milk / fish / greenhouse / "
         "SCP / sugar; seaweed farm area), retail waste decreased, feed or biofuel charge of one month increased, or population, need and "
         "every supply multiplied by a common factor in [0.01, 10]; Optimizer(consts', time_consts').optimize_to_humans is called directly and "
-        "the optimum compared with the unperturbed one.  Non-trivial = perturbation that moves the optimum by more than the tolerance, or a "
+        "the optimum compared with the unperturbed one; the extreme rows of the input table and the world run are always perturbed with fixed "
+        "scale factors, the meat stock alone and the feed charge, on every human round.  Non-trivial = perturbation that moves the optimum by more than the tolerance, or a "
         "scale factor outside [0.5, 2]; distinct by (instance hash, perturbation).")
 ASSUMPTIONS = ["tolerance 2e-5 relative for monotonicity, 5e-5 for the scale law and for instances with the seaweed ledger (CBC absolute tolerances; probe)",
-               "a tightening that makes the programme infeasible counts as 'no increase'; a relaxation that makes it infeasible is a violation",
+               "a tightening that makes the programme infeasible counts as 'no increase'; a relaxation that leaves the first-stage programme infeasible or below the base value is a violation (a later tie-breaking solve giving up on a perturbed instance is counted as aborted)",
                "seaweed growth factors are not perturbed (biomass cannot be freely disposed of, so monotonicity in growth is not implied)"]
 TOL, TOL_LOOSE = 2e-5, 5e-5
 
